@@ -310,3 +310,51 @@ func genKmpDedup(repo string) (string, error) {
 	}
 	return g.out.String(), nil
 }
+
+// genCleanupRing: cleanupNewRing of snap.go -> gen/CleanupRingGen.v.  kmpDeduplicate and asPointOrLine are the
+// regenerated ones (KmpDedupGen.v, SnapSmallGen.v); splitRing is the MODEL's, its arguments (hitMultiple, ringIdx)
+// being the model's predicate isMulti.
+func genCleanupRing(repo string) (string, error) {
+	g, err := sgLoad(repo)
+	if err != nil {
+		return "", err
+	}
+	g.dedup, g.cleanup = true, true
+	fd, ok := g.funcs["cleanupNewRing"]
+	if !ok {
+		return "", fmt.Errorf("cleanupNewRing not found")
+	}
+	var flat []lfield
+	for _, f := range fd.Type.Params.List {
+		for _, n := range f.Names {
+			flat = append(flat, lfield{n.Name, types.ExprString(f.Type)})
+		}
+	}
+	for i := 0; i+1 < len(flat); i++ {
+		if flat[i].ty == "map[intgeom.Point][]int" && flat[i+1].ty == "int" {
+			g.multiParams = [2]string{flat[i].name, flat[i+1].name}
+		}
+	}
+	if g.multiParams[0] == "" {
+		return "", fmt.Errorf("cleanupNewRing: the parameters (hitMultiple map[intgeom.Point][]int, ringIdx int) were not found")
+	}
+	for name, want := range map[string][2]string{"kmpDeduplicate": {stPts, stPts}, "asPointOrLine": {stPts, stRings}} {
+		f, ok := g.funcs[name]
+		if !ok {
+			return "", fmt.Errorf("%s not found", name)
+		}
+		g.cleanup = false
+		sig, err := g.signature(f)
+		g.cleanup = true
+		if err != nil || len(sig.params) != 1 || sig.params[0].ty != want[0] || sig.result != want[1] {
+			return "", fmt.Errorf("%s does not have the signature its generated file gives it", name)
+		}
+		g.sigs[name], g.emitted[name] = sig, true
+	}
+	g.out.WriteString("(* GENERATED by /verif/translator (G2, loops in the error monad) from snap/snap.go on every run -- do not edit. *)\n")
+	g.out.WriteString("From Coq Require Import ZArith List Bool.\nFrom Texel Require Import Prelude.Base Prelude.GoLoop Index.Model Snap.Model.\nFrom Texel.Gen Require Import KmpDedupGen SnapSmallGen.\nImport ListNotations.\nOpen Scope Z_scope.\n\n")
+	if err := g.function("cleanupNewRing"); err != nil {
+		return "", err
+	}
+	return g.out.String(), nil
+}
